@@ -380,3 +380,86 @@ def check_classification_targets(y):
 
 GLOBAL_STUBS["check_classification_targets"] = check_classification_targets
 STUB_CONTRACTS["check_classification_targets"] = check_classification_targets.__doc__
+
+
+# --------------------------------------------------------------------------
+import z3 as _z3
+
+_KERN = {}
+
+
+def pairwise_kernels(X, Y=None, metric="linear", **kw):
+    """sklearn.metrics.pairwise_kernels by contract: 'precomputed' returns X; any other kernel is an uninterpreted
+    symmetric function k(x, y) in (0, 1] with k(x, x) = 1 (rbf-like) of the two feature rows"""
+    X = asnd(X)
+    if metric == "precomputed":
+        return X
+    Y = X if Y is None else asnd(Y)
+    if X.ndim != 2 or Y.ndim != 2 or (X.shape[1] != Y.shape[1] and len(Y) and len(X)):
+        raise ValueError("Incompatible dimension for X and Y matrices")
+    d = X.shape[1]
+    f = _KERN.setdefault(d, _z3.Function(f"kern{d}", *([_z3.RealSort()] * (2 * d)), _z3.RealSort()))
+    c = core.ctx()
+    rx, ry = raw(X), raw(Y)
+    out = _np.empty((X.shape[0], Y.shape[0]), dtype=object)
+    for i in range(X.shape[0]):
+        for j in range(Y.shape[0]):
+            a = [core.lift(v).r for v in rx[i]]
+            b = [core.lift(v).r for v in ry[j]]
+            t = f(*a, *b)
+            key = ("kern", t.get_id())
+            if key not in c.uf_axioms_done:
+                c.uf_axioms_done.add(key)
+                same = _z3.And(*[p == q for p, q in zip(a, b)]) if a else _z3.BoolVal(True)
+                c.add(_z3.And(t > 0, t <= 1, t == f(*b, *a), _z3.Implies(same, t == 1)))
+            out[i, j] = core.SymFloat(t)
+    return arrays._wrap(out, arrays.FLOAT)
+
+
+class Frozen:
+    """scipy.stats frozen distribution by contract (location-scale family): records its parameters; mean() = loc,
+    std() = scale * c(df), entropy() = log(scale) + h(df); rvs = loc + scale * standard draws of the given generator"""
+
+    def __init__(self, kind, loc, scale, df=None):
+        self.kind, self.loc, self.scale, self.df = kind, asnd(loc).astype(float), asnd(scale).astype(float), df
+        self.calls = []
+
+    def mean(self):
+        self.calls.append("mean")
+        self._mean = self.loc.copy()
+        return self._mean
+
+    def std(self):
+        self.calls.append("std")
+        self._std = self.scale.copy()   # (the df dependent factor is outside the model)
+        return self._std
+
+    def entropy(self):
+        self.calls.append("entropy")
+        self._entropy = elementwise("log", (self.scale,))
+        return self._entropy
+
+    def rvs(self, size=None, random_state=None):
+        from .facade import check_random_state_stub
+        rs = check_random_state_stub(random_state)
+        z = rs.standard_normal(size)
+        return self.loc + self.scale * z
+
+
+class _TGen:
+    def __call__(self, df=None, loc=0, scale=1):
+        return Frozen("t", loc, scale, df=df)
+
+    def isf(self, q, df):
+        import scipy.stats
+        return scipy.stats.t.isf(arrays.to_real(asnd(q)) if not _np.isscalar(q) else q, df)
+
+
+class _NormGen:
+    def __call__(self, loc=0, scale=1):
+        return Frozen("norm", loc, scale)
+
+
+GLOBAL_STUBS.update({"pairwise_kernels": pairwise_kernels, "t": _TGen(), "norm": _NormGen()})
+
+STUB_CONTRACTS.update({"pairwise_kernels": pairwise_kernels.__doc__, "scipy.stats.t/norm": Frozen.__doc__})
